@@ -51,6 +51,7 @@ CSliceRef_u8 rs_static_str(void); CSliceRef_pod rs_static_pods(void);
 CVec_u64 rs_vec_u64(uintptr_t, uintptr_t); CVec_u8 rs_vec_u8(uintptr_t); CVec_pod rs_vec_pod(uintptr_t); CVec_tracked rs_vec_tracked(uintptr_t); uint64_t rs_vec_digest(CVec_u64); void rs_vec_push(CVec_u64 *, uint64_t);
 uintptr_t rs_feed(OpaqueCallback_u64, uint64_t); uintptr_t rs_feed_pod(OpaqueCallback_pod, uint32_t);
 void *rs_sink_new(void); OpaqueCallback_u64 rs_sink_callback(void *); uint64_t rs_sink_digest_free(void *);
+CITER(CBox_void, box); void *rs_boxiter_new(uint64_t); CIterator_box rs_boxiter_wrap(void *); uint64_t rs_boxiter_free(void *);
 void *rs_iter_new(uint64_t); CIterator_u64 rs_iter_wrap(void *); uint64_t rs_iter_state_free(void *); uint64_t rs_iter_digest(CIterator_u64);
 COption_u64 rs_opt_u64(bool, uint64_t); COption_u8 rs_opt_u8(bool, uint8_t); COption_pod rs_opt_pod(bool, uint8_t, uint32_t); int64_t rs_opt_read(COption_u64);
 CResult_u64_i32 rs_res(bool, uint64_t, int32_t); CResult_pod_u8 rs_res_pod(bool, uint8_t, uint32_t); int64_t rs_res_read(CResult_u64_i32);
